@@ -6,13 +6,16 @@ from props.common import relevant
 LEVEL = 'model_checking'
 
 
-def churn_session(r, cycles, server_side=False, srv=False):
-    """one id re-used `cycles` times (beyond 26: labels aa, ab, ...), with mentions between"""
+def churn_session(r, cycles, server_side=False, srv=False, back=False):
+    """one id re-used `cycles` times (beyond 26: labels aa, ab, ...), with mentions between; with `back` the log's clock
+    sometimes steps back (an object may then be destroyed at an earlier log time than it was created)"""
     ev = []
     t = r.choice([0, 770203519])
     def msg(ty, i, name, sent, args):
         nonlocal t
         t += r.choice([1, 50, 3000])
+        if back and r.random() < 0.25:
+            t = max(0, t - r.choice([60, 4000, 2000000]))
         ev.append({'in': {'e': 'msg', 'tag': '', 't': t, 'm': {'ttype': ty, 'tid': i, 'name': name, 'sent': sent, 'args': args}}})
     cs = server_side
     msg('wl_display', 1, 'get_registry', not cs, [{'k': 'new', 'type': 'wl_registry', 'id': 2}])
@@ -60,7 +63,7 @@ def sessions(ctx, rep, cfg):
     yield from sessbase.rich_sessions(ctx, 1000003, ctx.pick(40, 400))
     for k in range(ctx.pick(6, 40)):
         r2 = random.Random(ctx.seed * 31 + k)
-        yield (churn_session(r2, r2.choice([30, 60, 120] if ctx.quick else [30, 120, 750]), server_side=k % 2 == 1, srv=k % 3 == 2),
+        yield (churn_session(r2, r2.choice([30, 60, 120] if ctx.quick else [30, 120, 750]), server_side=k % 2 == 1, srv=k % 3 == 2, back=k % 4 == 1),
                {'dialect': 'new' if k % 2 else 'old'}, 'churn')
 
 
